@@ -49,6 +49,40 @@ def MsgOracleSetUpdatedClaim.effect (c : MsgOracleSetUpdatedClaim) : MsgOracleSe
 def notDemanded : List String := ["BridgerAddress", "ChainName"]
 def notDemandedBridgeToken : List String := ["BridgerAddress", "ChainName", "Name"]
 
+/-! ## what code may do with a claim it holds only as `types.ExternalClaim` (round 4)
+
+`Gen/C03.lean` `interfaceUses` lists every use of a value of the interface type in x/crosschain/keeper (function, kind, what).
+Allowed: the getters of fields every `ClaimHash` covers, the hash itself, the type (claims of different types never share a
+path: `anyClaim_path_injective`); a type switch / assertion (the typed scans `handlerView` / `flow_<tag>` take over); handing
+the claim to a function that is itself in the table (`followedCallees`) or that stores / deletes / collects it as it is
+(`storingCallees`); `GetClaimer()` only in `MsgServer.Claim`, where it identifies the voter, not the event. -/
+
+/-- getters of fields, with the field -/
+def interfaceFieldGetters : List (String × String) := [("GetEventNonce", "EventNonce"), ("GetBlockHeight", "BlockHeight")]
+
+def interfaceGetters : List String := interfaceFieldGetters.map (·.1) ++ ["ClaimHash", "GetType"]
+
+/-- callee#argument positions whose callee is scanned itself, with the callee's name -/
+def followedCalleeTable : List (String × String) :=
+  [("Attest", "Attest#2"), ("claimLogicCheck", "claimLogicCheck#1"), ("TryAttestation", "TryAttestation#2"),
+   ("processAttestation", "processAttestation#1"), ("AttestationHandler", "AttestationHandler#1"),
+   ("DeleteAttestation", "DeleteAttestation#1"), ("SavePendingExecuteClaim", "SavePendingExecuteClaim#1")]
+
+def followedCallees : List String := followedCalleeTable.map (·.2)
+
+/-- callee#argument positions that keep the claim as it is: `codectypes.NewAnyWithValue` (the attestation's recorded claim),
+`cdc.MarshalInterface` (the pending-execute-claim store), an iterator's callback, `append` (the claims whose attestations
+`pruneAttestations` deletes) -/
+def storingCallees : List String := ["NewAnyWithValue#0", "MarshalInterface#0", "cb#1", "append#1"]
+
+def allowedInterfaceUse : String × String × String → Bool
+  | ("Claim", "call", "GetClaimer") => true
+  | (_, "call", m) => interfaceGetters.contains m
+  | (_, "typed", _) => true
+  | (_, "pass", f) => followedCallees.contains f || storingCallees.contains f
+  | ("pruneAttestations", "value", _) => true
+  | _ => false
+
 /-- how every `ClaimHash` must turn the path into the digest -/
 def expectedHashExpr : String := "tmhash.Sum([]byte(path))"
 
